@@ -16,7 +16,7 @@ RULE = ("One-instruction programs. Enumerated: every (mnemonic, operand form) pa
         "orders, all 52 same-width TFR/EXG pairs, branch to the next label) x the boundary grid "
         "{0,1,15,16,17,127,128,129,255,256,257,32767,32768,65535,-1,-15,-16,-17,-127,-128,-129,-255,-256,-32768} "
         "restricted to the operand's domain x every spelling the value admits (decimal, $hex minimal and padded to "
-        "2/3/4 digits, %binary 8/16 digits, 'char) x value source (literal, EQU before/after, label on the "
+        "2/3/4 digits, %binary 8/16 digits, 'char) x value source (literal, EQU before/after, EQU alias chain written top-down, label on the "
         "statement itself / before / after). Thorough adds every value 0..65535 and -32768..-1 for representative "
         "mnemonics of each class. Hypothesis draws the same tuples with arbitrary in-domain values. Oracle: the "
         "image, minus helper NOPs, must decode with the independent decoder as exactly one instruction of the "
@@ -29,13 +29,13 @@ ASSUMPTIONS = [
 ]
 HEALTH = {"src:lit": 20000, "src:equ": 20000, "src:label": 8000, "form:idx": 20000, "form:reglist": 1200, "form:pair": 40}
 EXHAUSTIVE = {
-    "quick": ["all 139 mnemonics x all operand forms x 24 boundary values (in domain) x all spellings x 7 value sources"],
-    "thorough": ["all 139 mnemonics x all operand forms x 24 boundary values (in domain) x all spellings x 7 value sources",
+    "quick": ["all 139 mnemonics x all operand forms x 24 boundary values (in domain) x all spellings x 8 value sources"],
+    "thorough": ["all 139 mnemonics x all operand forms x 24 boundary values (in domain) x all spellings x 8 value sources",
                  "every value 0..65535 and -32768..-1 (in domain) x {dec, minimal hex} x literal source x forms "
                  "imm/mem/extind/idx/pcr for LDA LDX LDY LEAX STA CMPD JMP"],
 }
 
-SOURCES = ["lit", "equ_before", "equ_after", "label_self", "label_before", "label_after", "label_org"]
+SOURCES = ["lit", "equ_before", "equ_after", "label_self", "label_before", "label_after", "label_org", "equ_chain"]
 ORG = 0x1000
 
 
@@ -64,6 +64,8 @@ def value_cases(base, values, spell_all=True):
             if base["form"] != "pcr":
                 yield dict(base, v=v, sp=tag, src="equ_before")
                 yield dict(base, v=v, sp=tag, src="equ_after")
+        if base["form"] != "pcr":
+            yield dict(base, v=v, sp=sp[0][0], src="equ_chain")
         if base["form"] != "pcr" and 8 <= v <= 65520:
             for src in ("label_self", "label_before", "label_after", "label_org"):
                 yield dict(base, v=v, sp="dec", src=src)
@@ -268,6 +270,11 @@ def build(case):
                 pre.append(equ)
             elif src == "equ_after":
                 post.append(equ)
+            elif src == "equ_chain":
+                # the symbol is an alias of an alias of the constant, written top-down (each definition names one that
+                # comes later), next to an unrelated pair of definitions that resolves first
+                pre += [A.line("ZZD", "EQU", "ZZT"), A.line("ZZT", "EQU", "5"), A.line(A.SYM, "EQU", "ZZ1"),
+                        A.line("ZZ1", "EQU", "ZZ2"), A.line("ZZ2", "EQU", A.spell(v, case["sp"]))]
             elif src == "label_self":
                 org = v
                 label = A.SYM
